@@ -10,7 +10,8 @@ EXPLANATION = (
     "observations after the push; (R13.3) the feature of a continuing detection is dropped exactly when it fails "
     "feature_can_be_used with the *_collect thresholds, own-area shares are computed whenever either own-area "
     "threshold is positive and indexed by the detection's own position; (R13.4) wasted-track records copy histories "
-    "in order and last entries via back().")
+    "in order and last entries via back()."
+    ' (R13.7) the metric works with the configured bounds themselves: VisualMetricBuilder::build hands visual_max_observations and the collect / use thresholds over unchanged, and the observation constructor stores the given quality unchanged.')
 NOT_DECIDED = ["bounds under user code that edits observations through get_mut_observations",
                "concrete gallery contents for concrete quality sequences"]
 ASSUMPTIONS = ["VecDeque / Vec / sort behave as documented", "rustc nightly MIR construction"]
